@@ -1,5 +1,5 @@
 """Registry: property id -> rule set, level and explanations."""
-from . import p_symbols, p_rs, p_charset, p_modes
+from . import p_symbols, p_rs, p_charset, p_modes, p_macro
 
 PROPS = {}
 
@@ -72,6 +72,20 @@ PROPS["C13"] = {
                      "mode encoders push only computed data codewords, UNLATCH and shift values (no latch constants: LATCH-USE)"],
     "assumptions": ["default cargo features"],
     "technique": "MIR dominance (must-pass-through edge) + crate-wide field-writer enumeration + constant-use census",
+}
+
+PROPS["C16"] = {
+    "level": "other",
+    "rules": [p_macro.dom_macro, p_macro.fld_input, p_macro.dec_macro, p_macro.fnc1],
+    "explanation": "Clause-level claim. Decided: (only-if) every macro-codeword push and the re-slice of the input are dominated by "
+                   "the true edges of codewords.is_empty(), data.ends_with(RS EOT) and data.starts_with(the header paired with that "
+                   "codeword); header/trailer/codeword constants equal the standard; header and trailer cannot overlap so the re-slice "
+                   "bounds hold; at most one macro codeword; macro detection only under use_macros and before ECI/encoding; the read "
+                   "cursor stays a suffix of `input` (FLD-INPUT); the decoder re-creates header/trailer only for a first-position "
+                   "236/237 and strips one leading FNC1; FNC1 seeding iff requested. NOT decided: that the body between header and "
+                   "trailer round-trips (C01).",
+    "assumptions": ["default cargo features", "slice::starts_with/ends_with semantics"],
+    "technique": "MIR dominance by edge removal + crate-wide field-writer enumeration + THIR decision tables",
 }
 
 NOT_APPLICABLE = {
